@@ -71,6 +71,17 @@ def run_case(case, obs=None):
             obs.append(bytes(ba))
         if cv.scsi_ba_to_int(ba) != value:
             out.append(("int_roundtrip", "ba_to_int(int_to_ba(%#x,%d)) != value" % (value, size)))
+        # the conversion is a function of its arguments only: what a caller does to one result must not show in the next
+        try:
+            ba += b"\xee\xee"
+            if len(ba) > 2:
+                ba[0] ^= 0xFF
+        except TypeError:
+            pass
+        again = cv.scsi_int_to_ba(value, size)
+        if bytes(again) != exp:
+            out.append(("int_to_ba_shared_result", "scsi_int_to_ba(%#x,%d) returned %s after the caller modified an earlier result (expected %s)"
+                        % (value, size, bytes(again).hex(), exp.hex())))
     elif kind == "single":
         _, width, shift, offset, trail, pat, value = case
         mask, n, fld = layout_of(width, shift, offset)
